@@ -24,8 +24,20 @@ def run(ctx: Ctx):
         scen_jobs.append(dict(seed=ctx.seed * 100000 + 17000 + k, opts=opts, diffusion=[0.0, 50.0, 400.0][k % 3] if k % 2 else 0.0,
                               vertdiff=0.01 if k % 4 == 1 else 0.0))
     kernel_jobs = [dict(seed=ctx.seed * 1000 + k, N=[2, 3, 5, 1][k % 4] if k % 16 == 15 else [2, 3, 5, 8][k % 4]) for k in range(400 if ctx.thorough else 64)]
+    # sequences in one process: a wide (tall) grid at rest or slow, then a narrower (shorter) one with a fast flow whose stage
+    # positions overshoot the boundary — limits, shapes or compiled constants of the first run must not serve the second
+    seq_jobs = []
+    base = ctx.seed * 100000 + 17900
+    for k in range(24 if ctx.thorough else 6):
+        firsts = [s_ for s_ in range(base + 40 * k, base + 40 * k + 8) if s_ % 4 == [0, 1][k % 2]]     # (12, 10) wide / (9, 13) tall
+        seconds = [s_ for s_ in range(base + 40 * k + 8, base + 40 * k + 24) if s_ % 4 == [1, 0][k % 2]]
+        seq = [dict(seed=firsts[0], opts=dict(speed=0.25, scheme=["RK4", "RK2"][k % 2], layout="sparse", kills=False, nsteps=3, land=False, subgrid="none"),
+                    diffusion=0.0, vertdiff=0.0)]
+        seq += [dict(seed=s_, opts=dict(speed=4.0, scheme=["RK4", "RK2"][k % 2], layout="sparse", kills=False, nsteps=6, land=False, subgrid="none"),
+                     diffusion=0.0, vertdiff=0.0) for s_ in seconds[:3]]
+        seq_jobs.append(seq)
     env = dict(os.environ, NUMBA_BOUNDSCHECK="1", LADIM_REPO=str(REPO))
-    p = subprocess.run([sys.executable, "-m", "harness.bounds_worker"], input=json.dumps(dict(scen=scen_jobs, kernel=kernel_jobs)),
+    p = subprocess.run([sys.executable, "-m", "harness.bounds_worker"], input=json.dumps(dict(scen=scen_jobs, kernel=kernel_jobs, seq=seq_jobs)),
                        capture_output=True, text=True, env=env, cwd="/verif", timeout=3000)
     if "@@RESULT@@" not in p.stdout:
         raise MachineryError("bounds worker failed: " + p.stderr[-2000:])
@@ -38,6 +50,16 @@ def run(ctx: Ctx):
             ctx.violation(kind, "bounds-checked run", dict(job=job, scenario=g["brief"]),
                           dict(status=g["status"], theorem="Ladim.C17.sampleVel_in_bounds / advect_in_bounds / z2s_in_bounds"),
                           tags=dict(first="IndexError" if "IndexError" in g["status"] else "status", N=g["brief"]["N"]))
+    for seq, gs in zip(seq_jobs, res["seq"]):
+        ctx.case("runs in a row", [j["seed"] for j in seq], sample=dict(sequence=[g["brief"] for g in gs], status=[g["status"] for g in gs]), nontrivial=True)
+        ctx.count("sequence:" + seq[0]["opts"]["scheme"])
+        for n_, (job, g) in enumerate(zip(seq, gs)):
+            if g["status"] != "ok":
+                kind = "failing-input" if "IndexError" in g["status"] else "tie-broken"
+                ctx.violation(kind, "runs in a row", dict(sequence=seq[: n_ + 1], scenarios=[x["brief"] for x in gs[: n_ + 1]]),
+                              dict(status=g["status"], position_in_sequence=n_, theorem="Ladim.C17.sampleVel_in_bounds / advect_in_bounds (for the grid of the run itself)"),
+                              tags=dict(first="IndexError" if "IndexError" in g["status"] else "status", N=g["brief"]["N"]))
+                break
     for job, g in zip(kernel_jobs, res["kernel"]):
         ctx.case("bounds-checked kernels", [job["seed"], job["N"]], sample=dict(job=job, result=g))
         ctx.count("kernel:N=%d" % job["N"])
